@@ -18,6 +18,9 @@ def run(ctx):
         I("small", 2, "PTT", alloc="ledgerbasic", L=3, reloc=r, opts=few),
         I("fixed", 3, "TR", st="uint8_t", L=3, reloc=r, opts=few),
         I("fixedu", 3, "TC4", st="uint8_t", L=3, reloc=r, opts=few),
+        # over-aligned element (std::allocator: amc::allocator is malloc based and only gives 16-byte alignment)
+        I("small", 2, "TC32", alloc="std", L=3, reloc=r, opts=few),
+        I("fixed", 3, "TC32", st="uint8_t", L=3, reloc=r, opts=few),
         I("small", 2, "NTR", alloc="ledgerstd", L=3, reloc=r, opts=few),   # must NOT claim (static part)
         I("fixed", 2, "PTN", st="uint8_t", L=2, reloc=r, opts=few),        # must NOT claim
         I("small", 1, "NTR", alloc="ledgerstd", L=3, reloc=r, opts=few),   # must NOT claim (element lives in the pointer slot)
